@@ -175,8 +175,12 @@ def gen_history(rng, n_max=14, overdraw_pct=0, method=None, accounts=None, earn_
     for row in intras:
         row["row"] = r
         r += 1
+    sched = [[1970, method]] if method else gen_sched(rng)
+    first_year = min(local_year(r["ts"]) for r in ins + outs + intras)
+    if min(y for y, _ in sched) > first_year:
+        sched[0][0] = 1970 if rng.chance(70) else first_year     # the schedule must cover every year of the history
     return {"asset": "B1", "exchanges": exchanges, "holders": holders, "country": "us", "env": None,
-            "sched": [[1970, method]] if method else gen_sched(rng), "from": None, "to": None, "allow_neg": False,
+            "sched": sched, "from": None, "to": None, "allow_neg": False,
             "ins": ins, "outs": outs, "intras": intras}
 
 
